@@ -354,7 +354,7 @@ def ldChecks (cfg : Cfg) (P : Crypto) (E : Env) (at_ : Option Time) (issuer : St
 /-- resolveSigningKey: empty kid falls back to the issuer; did:jwk gets "#0" -/
 def jwtKeyID (kid issuer : String) : String :=
   let k := if kid == "" then issuer else kid
-  if k.startsWith "did:jwk:" && !(k.contains '#') then k ++ "#0" else k
+  if "did:jwk:".toList.isPrefixOf k.toList && !(k.toList.contains '#') then k ++ "#0" else k
 
 def jwtParses : Check (Option JwtInfo) :=
   { name := "jwt:parses", run := fun j => guard j.isSome "jwt-malformed" }
